@@ -88,12 +88,27 @@ std::string run_query(const cctz::time_zone& tz, const Query& q) {
       break;
     }
     case Q_FORMAT: {
-      out = cctz::format(q.fs.empty() ? std::string(kFormats[q.fmt % kNumFormats]) : q.fs, tp_of(q.a), tz);
+      const std::string f = q.fs.empty() ? std::string(kFormats[q.fmt % kNumFormats]) : q.fs;
+      if (q.b != 0 && q.a > -9000000000LL && q.a < 9000000000LL) {
+        // a time point with a sub-second part goes through the time_point<D> templates and the femtosecond path
+        auto tp = std::chrono::time_point<std::chrono::system_clock, std::chrono::nanoseconds>(std::chrono::nanoseconds(q.a * 1000000000LL + q.b % 1000000000LL));
+        out = cctz::format(f, tp, tz);
+      } else out = cctz::format(f, tp_of(q.a), tz);
       break;
     }
     case Q_PARSE: {
       cctz::time_point<cctz::seconds> tp;
-      bool ok = cctz::parse(q.fs.empty() ? std::string(kFormats[q.fmt % kNumFormats]) : q.fs, q.s, tz, &tp);
+      const std::string f = q.fs.empty() ? std::string(kFormats[q.fmt % kNumFormats]) : q.fs;
+      if (q.b != 0) {
+        // the entry point underneath: seconds, femtoseconds and the error text
+        cctz::detail::femtoseconds fs(0);
+        std::string err = "(untouched)";
+        bool ok = cctz::detail::parse(f, q.s, tz, &tp, &fs, &err);
+        snprintf(b, sizeof b, "%d %" PRId64 " fs=%" PRId64 " err=", ok ? 1 : 0, ok ? secs(tp) : 0, ok ? static_cast<int64_t>(fs.count()) : 0);
+        out = b + (ok ? std::string() : err);
+        break;
+      }
+      bool ok = cctz::parse(f, q.s, tz, &tp);
       snprintf(b, sizeof b, "%d %" PRId64, ok ? 1 : 0, ok ? secs(tp) : 0);
       out = b;
       break;
@@ -112,8 +127,8 @@ J query_to_json(const Query& q) {
   switch (q.k) {
     case Q_LOOKUP_TP: case Q_CONV_TP: case Q_NEXT: case Q_PREV: j.set("t", q.a); break;
     case Q_LOOKUP_CS: case Q_CONV_CS: j.set("y", q.a); j.set("mdhms", q.b); break;
-    case Q_FORMAT: j.set("t", q.a); j.set("fmt", q.fmt); if (!q.fs.empty()) j.set("fstr", q.fs); break;
-    case Q_PARSE: j.set("in", q.s); j.set("fmt", q.fmt); if (!q.fs.empty()) j.set("fstr", q.fs); break;
+    case Q_FORMAT: j.set("t", q.a); j.set("fmt", q.fmt); if (!q.fs.empty()) j.set("fstr", q.fs); if (q.b) j.set("sub", q.b); break;
+    case Q_PARSE: j.set("in", q.s); j.set("fmt", q.fmt); if (!q.fs.empty()) j.set("fstr", q.fs); if (q.b) j.set("sub", q.b); break;
     default: break;
   }
   return j;
@@ -127,6 +142,7 @@ Query query_from_json(const J& j) {
   q.fmt = static_cast<int>(j.geti("fmt"));
   q.s = j.gets("in");
   q.fs = j.gets("fstr");
+  if (j.has("sub")) q.b = j.geti("sub");
   return q;
 }
 std::string query_text(const Query& q) {
@@ -138,8 +154,8 @@ std::string query_text(const Query& q) {
       return b;
     }
     case Q_FORMAT:
-      if (!q.fs.empty()) return "format('" + q.fs + "'," + std::to_string(q.a) + ")";
-      snprintf(b, sizeof b, "format(#%d,%" PRId64 ")", q.fmt, q.a); return b;
+      if (!q.fs.empty()) return "format('" + q.fs + "'," + std::to_string(q.a) + (q.b ? "+" + std::to_string(q.b) + "ns" : std::string()) + ")";
+      snprintf(b, sizeof b, "format(#%d,%" PRId64 "%s)", q.fmt, q.a, q.b ? "+ns" : ""); return b;
     case Q_PARSE: return std::string("parse(") + (q.fs.empty() ? "#" + std::to_string(q.fmt) : "'" + q.fs + "'") + ",'" + q.s + "')";
     case Q_DESC: case Q_VERSION: case Q_NAME: return std::string(qkind_name(q.k)) + "()";
     default: snprintf(b, sizeof b, "%s(%" PRId64 ")", qkind_name(q.k), q.a); return b;
@@ -283,8 +299,9 @@ Query gen_query(Rng* r, const ZoneShape& sh, bool allow_meta) {
   else if (kind < 80) {
     q.k = Q_FORMAT; q.a = t; q.fmt = static_cast<int>(r->below(static_cast<uint64_t>(kNumFormats)));
     if (r->chance(0.4)) q.fs = gen_format(r);
+    if (r->chance(0.25)) q.b = static_cast<int64_t>(r->pick(std::vector<int64_t>{1, 999999999, 500000000, 123456789, 1000, 999999}));
   }
-  else if (kind < 88) gen_parse(r, &q, t, off);
+  else if (kind < 88) { gen_parse(r, &q, t, off); q.b = r->chance(0.3) ? 1 : 0; }
   else if (kind < 94) { q.k = Q_CONV_TP; q.a = t; }
   else if (kind < 100) {
     int64_t local = (t > INT64_MAX - 200000 || t < INT64_MIN + 200000) ? t : t + off;
